@@ -5,6 +5,7 @@ return the mathematically defined values for ALL integers.
 -/
 import RelicVerif.Lemmas.NtGcdD
 import RelicVerif.Lemmas.NtLehmer
+import RelicVerif.Lemmas.NtGcdMid
 
 namespace Relic.Props.C09
 open Relic.Model.NtGcd Relic.Lemmas.NtGcd
@@ -89,6 +90,19 @@ theorem lehmer_matrix_keeps_gcd (m : Relic.Model.NtLehmer.Mat) (hm : Relic.Lemma
 theorem lehmer_simulation_unimodular (W xd yd : Nat) (m m' : Relic.Model.NtLehmer.Mat)
     (h : Relic.Model.NtLehmer.simPass W xd yd m = some m') (hm : Relic.Lemmas.NtLehmer.Unimod m) :
     Relic.Lemmas.NtLehmer.Unimod m' := Relic.Lemmas.NtLehmer.simPass_unimod W xd yd m m' h hm
+
+/-- bn_gcd_ext_mid (extended Euclid stopped halfway, the source of the GLV lattice basis): for a, b ≠ 0 the model returns, and both
+output vectors (c, d), (e, f) lie in the lattice {(x, y) : x + y·v0 ≡ 0 (mod u0)}, (u0, v0) = (larger, smaller magnitude of a, b) — for
+every prior content of the outputs that lies in the lattice (the C code leaves outputs unwritten on some paths; the harness passes zeros).
+Shortness of the vectors is not proved (C18 checks the decomposition they give per curve). -/
+theorem gcd_ext_mid_lattice (c0 d0 e0 f0 a b : Int) (ha : a ≠ 0) (hb : b ≠ 0) (u0 v0 : Int)
+    (hu : u0 = if a.natAbs > b.natAbs then (a.natAbs : Int) else (b.natAbs : Int))
+    (hv : v0 = if a.natAbs > b.natAbs then (b.natAbs : Int) else (a.natAbs : Int))
+    (h0 : u0 ∣ c0 + d0 * v0) (h1 : u0 ∣ e0 + f0 * v0) :
+    ∃ c d e f, Relic.Model.NtGcdMid.gcdExtMid c0 d0 e0 f0 a b = some (c, d, e, f) ∧ u0 ∣ c + d * v0 ∧ u0 ∣ e + f * v0 :=
+  Relic.Lemmas.NtGcdMid.gcdExtMid_spec c0 d0 e0 f0 a b ha hb u0 v0 hu hv h0 h1
+
+example : Relic.Model.NtGcdMid.gcdExtMid 0 0 0 0 1000 97 = some (30, 10, 7, -31) := by decide +kernel
 
 /-- non-vacuity: the models run (exact cofactors as the library prints them) -/
 example : gcdExtBasic (-12) 18 = (6, 1, 1) := by decide
